@@ -177,7 +177,7 @@ PROPS.update({
                 "short ones) x threads 1..=16 x batch limits x both writers x 7 containers (x header x "
                 "delimiters), and every record count 0..=40, 63..65, 127, 129 x threads 1..=8, 16: row i = record i. "
                 "states = branching decision points + terminal states, transitions = scheduling steps executed, "
-                "traces = complete schedules executed on the real code. Every schedule/configuration is distinct. Usable CPUs as an environment dimension: the command line under `taskset` with 1, 2, 3 and 6 usable CPUs (thorough: every count below the machine's) x -t in (0,1,2,3,4,8,16) x 3, 16 and 37 records; oracle: the result of the unrestricted one-thread run.",
+                "traces = complete schedules executed on the real code. Every schedule/configuration is distinct. Usable CPUs as an environment dimension: the command line under `taskset` with 1, 2, 3 and 6 usable CPUs (thorough: every count below the machine's) x -t in (0,1,2,3,4,8,16) x 3, 16 and 37 records; oracle: the result of the unrestricted one-thread run. More than 2^16 records (one longer record, then 65 600 short ones) with 2 workers (thorough: also 3): every way of preempting the workers within the first 16 (thorough 40) decisions at bound 1, each continued by default, so that a preempted worker resumes after the others have taken every remaining record.",
         "states": SCHED_STATES,
         "assumptions": SCHED_ASSUME + ["batches with more items than pool threads run free (which items start first is then rayon's choice); tasks that do not announce themselves (a bare scope.spawn) are not scheduled"],
     },
@@ -210,7 +210,7 @@ PROPS.update({
                 "configurations: every single record over {A,C,G,T,N}^(<=4) and every pair over two alphabets holding "
                 "both strands (thorough: more alphabets and triples) x k x 8 (threads, ceiling) settings (1 to 14 "
                 "chunks, 1 to 700 partitions, one to 16 workers), ACGT and numeric rendering, repetitive inputs for "
-                "k 15, 31. Usable CPUs as an environment dimension: the command line under `taskset` with 1, 2, 3 and 6 usable CPUs (thorough: every count below the machine's) x -t in (0,1,2,3,4,8,16) x 3, 16 and 37 records; oracle: the result of the unrestricted one-thread run.",
+                "k 15, 31. Usable CPUs as an environment dimension: the command line under `taskset` with 1, 2, 3 and 6 usable CPUs (thorough: every count below the machine's) x -t in (0,1,2,3,4,8,16) x 3, 16 and 37 records; oracle: the result of the unrestricted one-thread run. More than 2^16 records (one longer record, then 65 600 short ones) with 2 workers (thorough: also 3): every way of preempting the workers within the first 16 (thorough 40) decisions at bound 1, each continued by default, so that a preempted worker resumes after the others have taken every remaining record.",
         "states": SCHED_STATES,
         "assumptions": SCHED_ASSUME + ["merge scheduling is explored when chunks <= pool threads (otherwise which chunk tasks start first is rayon's choice and the phase runs free)",
                                        "configuration runs use free-running threads"],
@@ -225,7 +225,7 @@ PROPS.update({
                 "s2m = one line per record with the model's runs (multiset of lines), m2s = exact inversion of the "
                 "model's s2m (multiset per minimiser), w=0 means the whole record. configurations: all strings over "
                 "{A,C,G,T,N} up to length 5 (thorough 6) as one file x m 1..=3 x w in (0,m+1,m+2) x threads "
-                "(1,2,4,16), and every list of 2 (thorough 3) short records x 5 settings. Usable CPUs as an environment dimension: the command line under `taskset` with 1, 2, 3 and 6 usable CPUs (thorough: every count below the machine's) x -t in (0,1,2,3,4,8,16) x 3, 16 and 37 records; oracle: the result of the unrestricted one-thread run. More than 2^16 records (one longer record, then 65 600 short ones): every way of preempting the workers within the first 16 (thorough 40) decisions, each continued by default, so that a preempted worker resumes after the others have taken every remaining record.",
+                "(1,2,4,16), and every list of 2 (thorough 3) short records x 5 settings. Usable CPUs as an environment dimension: the command line under `taskset` with 1, 2, 3 and 6 usable CPUs (thorough: every count below the machine's) x -t in (0,1,2,3,4,8,16) x 3, 16 and 37 records; oracle: the result of the unrestricted one-thread run. More than 2^16 records (one longer record, then 65 600 short ones) with 2 workers (thorough: also 3): every way of preempting the workers within the first 16 (thorough 40) decisions, each continued by default, so that a preempted worker resumes after the others have taken every remaining record.",
         "states": SCHED_STATES,
         "assumptions": SCHED_ASSUME + ["configuration runs use free-running threads"],
     },
